@@ -53,6 +53,7 @@ type Leg struct {
 	Pre, Post   *World
 	Delivered   *Msg  // the message this leg delivered (dest legs)
 	Duplicate   bool  // second delivery of the same message (deliverTwice)
+	Outs        []Msg // every output transfer of the call, whatever its routing
 	Emitted     []Msg // cross-shard messages put in flight by this leg
 	Forwarded   bool  // Emitted[0] is the driver's re-encoding of the user's own transaction (A4 ii)
 	LocalCalls  []Msg // same-shard transfers carrying a contract call (recorded only)
@@ -295,6 +296,7 @@ func (e *Env) afterSuccess(post *World, leg *Leg, execAddr []byte, legs *[]*Leg)
 			if leg.Delivered != nil && leg.Delivered.FromSys {
 				m.FromSys = true
 			}
+			leg.Outs = append(leg.Outs, m)
 			var toShard uint32
 			if post.isSystemAccount(to) {
 				toShard = leg.Shard
